@@ -380,3 +380,114 @@ Section Top.
     destruct Hin as [<-|[]]. exact Hg.
   Qed.
 End Top.
+
+(* ---- what is kept on a cyclic forest is NOT "the derivations without a repeated node", in either direction ----
+   sder: the derivations of the graph in which no node occurs twice on a path from the root (what a walk that only
+   refuses to re-enter a node on its path, without a cache, would keep).  Because the transformation of a packed node is
+   cached under the path of its first visit and reused under other paths, the walk (a) loses such derivations and (b)
+   keeps derivations that do pass twice through a node; which ones depends on the order of the packed children.
+   Witness: the forests lark builds on "a" for
+       start: a | x     a: x | A     x: y     y: a | A     A: "a"          (cx_g:  start(x(y(a))) is lost)
+       start: x | a     (the same, alternatives of start swapped)          (cx_g2: start(a(x(y(a)))) is kept)
+   exported by the harness (stream cyclic-corpus compares lark's trees with the model's on both). *)
+Inductive sder (g : graph) : list nat -> nat -> list dtree -> Prop :=
+| sder_tok path n ty v : nth_error g n = Some (GTok ty v) -> sder g path n [DTok ty v]
+| sder_sym path n l fams gp dl dr : nth_error g n = Some (GSym l fams) -> ~ In n path -> In gp fams ->
+    sder_opt g (n :: path) (gp_left gp) dl -> sder_opt g (n :: path) (gp_right gp) dr ->
+    sder g path n (match l with LSym _ => [DNode (gp_rule gp) (dl ++ dr)] | LInter _ _ => dl ++ dr end)
+with sder_opt (g : graph) : list nat -> option nat -> list dtree -> Prop :=
+| sdo_none path : sder_opt g path None []
+| sdo_some path m ds : sder g path m ds -> sder_opt g path (Some m) ds.
+
+Local Open Scope string_scope.
+Local Open Scope list_scope.
+Definition cx_s (nm : string) : xrule := mkX nm nm false false false [mkSym "x" false false] [].
+Definition cx_start_a := mkX "start" "start" false false false [mkSym "a" false false] [].
+Definition cx_start_x := mkX "start" "start" false false false [mkSym "x" false false] [].
+Definition cx_a_x := mkX "a" "a" false false false [mkSym "x" false false] [].
+Definition cx_a_A := mkX "a" "a" false false false [mkSym "A" true false] [].
+Definition cx_x_y := mkX "x" "x" false false false [mkSym "y" false false] [].
+Definition cx_y_a := mkX "y" "y" false false false [mkSym "a" false false] [].
+Definition cx_y_A := mkX "y" "y" false false false [mkSym "A" true false] [].
+
+Definition cx_g : graph :=
+  [GSym (LSym "start") [mkGP cx_start_a None (Some 1); mkGP cx_start_x None (Some 2)];
+   GSym (LSym "a") [mkGP cx_a_x None (Some 2); mkGP cx_a_A None (Some 3)];
+   GSym (LSym "x") [mkGP cx_x_y None (Some 4)];
+   GTok "A" "a";
+   GSym (LSym "y") [mkGP cx_y_a None (Some 1); mkGP cx_y_A None (Some 5)];
+   GTok "A" "a"].
+Definition cx_tree : tree :=
+  Nd "_ambig" [Nd "start" [Nd "_ambig" [Nd "a" [Nd "x" [Nd "y" [Tk "A" "a"]]]; Nd "a" [Tk "A" "a"]]];
+               Nd "start" [Nd "x" [Nd "y" [Tk "A" "a"]]]].
+Definition cx_lost : dtree := DNode cx_start_x [DNode cx_x_y [DNode cx_y_a [DNode cx_a_A [DTok "A" "a"]]]].
+
+Definition cx_g2 : graph :=
+  [GSym (LSym "start") [mkGP cx_start_x None (Some 1); mkGP cx_start_a None (Some 2)];
+   GSym (LSym "x") [mkGP cx_x_y None (Some 3)];
+   GSym (LSym "a") [mkGP cx_a_x None (Some 1); mkGP cx_a_A None (Some 4)];
+   GSym (LSym "y") [mkGP cx_y_a None (Some 2); mkGP cx_y_A None (Some 5)];
+   GTok "A" "a";
+   GTok "A" "a"].
+Definition cx_tree2 : tree :=
+  Nd "_ambig" [Nd "start" [Nd "x" [Nd "_ambig" [Nd "y" [Nd "a" [Tk "A" "a"]]; Nd "y" [Tk "A" "a"]]]];
+               Nd "start" [Nd "_ambig" [Nd "a" [Nd "x" [Nd "_ambig" [Nd "y" [Nd "a" [Tk "A" "a"]]; Nd "y" [Tk "A" "a"]]]];
+                                        Nd "a" [Tk "A" "a"]]]].
+Definition cx_pumped : dtree :=
+  DNode cx_start_a [DNode cx_a_x [DNode cx_x_y [DNode cx_y_a [DNode cx_a_A [DTok "A" "a"]]]]].
+
+Lemma sder_unit g path n a fams gp m d :
+  nth_error g n = Some (GSym (LSym a) fams) -> ~ In n path -> In gp fams -> gp_left gp = None -> gp_right gp = Some m ->
+  sder g (n :: path) m [d] -> sder g path n [DNode (gp_rule gp) [d]].
+Proof.
+  intros En Hp Hg Hl Hr Hd.
+  pose proof (sder_sym g path n (LSym a) fams gp [] [d] En Hp Hg) as H. rewrite Hl, Hr in H.
+  apply H; constructor; auto.
+Qed.
+
+Lemma sder_unit_inv g path n a fams r ks :
+  sder g path n [DNode r ks] -> nth_error g n = Some (GSym (LSym a) fams) ->
+  (forall gp, In gp fams -> gp_left gp = None) ->
+  ~ In n path /\ exists gp, In gp fams /\ gp_rule gp = r /\ sder_opt g (n :: path) (gp_right gp) ks.
+Proof.
+  intros Hs En Hleft. inversion Hs as [|? ? l fams0 gp dl dr E0 Hp Hg Hl Hr E1 E2 E3]. subst.
+  rewrite En in E0. inversion E0; subst. split; auto.
+  inversion E3; subst. rewrite (Hleft gp Hg) in Hl. inversion Hl; subst. exists gp. auto.
+Qed.
+
+Theorem cyclic_kept_is_order_dependent :
+  (gwfb cx_g = true /\ groot_okb cx_g 0 = true /\
+   exists nd, gunfold cx_g 0 = Some (Some nd) /\ to_tree_explicit nd = cx_tree /\ length (derivs nd) = 3 /\
+              sder cx_g [] 0 [cx_lost] /\ ~ In cx_lost (derivs nd))
+  /\
+  (gwfb cx_g2 = true /\ groot_okb cx_g2 0 = true /\
+   exists nd, gunfold cx_g2 0 = Some (Some nd) /\ to_tree_explicit nd = cx_tree2 /\ length (derivs nd) = 5 /\
+              In cx_pumped (derivs nd) /\ ~ sder cx_g2 [] 0 [cx_pumped]).
+Proof.
+  split.
+  - split; [vm_compute; reflexivity|]. split; [vm_compute; reflexivity|].
+    eexists. split; [vm_compute; reflexivity|]. split; [vm_compute; reflexivity|]. split; [vm_compute; reflexivity|]. split.
+    + unfold cx_lost.
+      eapply (sder_unit cx_g [] 0 "start" _ (mkGP cx_start_x None (Some 2)) 2); try reflexivity; simpl; auto.
+      eapply (sder_unit cx_g [0] 2 "x" _ (mkGP cx_x_y None (Some 4)) 4); try reflexivity; simpl; [intuition lia|auto|].
+      eapply (sder_unit cx_g [2; 0] 4 "y" _ (mkGP cx_y_a None (Some 1)) 1); try reflexivity; simpl; [intuition lia|auto|].
+      eapply (sder_unit cx_g [4; 2; 0] 1 "a" _ (mkGP cx_a_A None (Some 3)) 3); try reflexivity; simpl; [intuition lia|auto|].
+      apply sder_tok. reflexivity.
+    + vm_compute. intros H. repeat (destruct H as [H|H]; [discriminate H|]). exact H.
+  - split; [vm_compute; reflexivity|]. split; [vm_compute; reflexivity|].
+    eexists. split; [vm_compute; reflexivity|]. split; [vm_compute; reflexivity|]. split; [vm_compute; reflexivity|]. split.
+    + vm_compute. tauto.
+    + (* the tree passes through node 2 (a) twice *)
+      intros H. unfold cx_pumped in H.
+      pose proof (fun path n a fams r ks Hs En => sder_unit_inv cx_g2 path n a fams r ks Hs En) as Inv.
+      destruct (Inv _ _ _ _ _ _ H eq_refl) as (_ & gp0 & Hg0 & E0 & R0); [simpl; intuition (subst; auto)|].
+      simpl in Hg0. destruct Hg0 as [<-|[<-|[]]]; try discriminate E0. inversion R0 as [|? ? ? S1]; subst. clear H R0 E0.
+      destruct (Inv _ _ _ _ _ _ S1 eq_refl) as (_ & gp1 & Hg1 & E1 & R1); [simpl; intuition (subst; auto)|].
+      simpl in Hg1. destruct Hg1 as [<-|[<-|[]]]; try discriminate E1. inversion R1 as [|? ? ? S2]; subst. clear S1 R1 E1.
+      destruct (Inv _ _ _ _ _ _ S2 eq_refl) as (_ & gp2 & Hg2 & E2 & R2); [simpl; intuition (subst; auto)|].
+      simpl in Hg2. destruct Hg2 as [<-|[]]; try discriminate E2. inversion R2 as [|? ? ? S3]; subst. clear S2 R2 E2.
+      destruct (Inv _ _ _ _ _ _ S3 eq_refl) as (_ & gp3 & Hg3 & E3 & R3); [simpl; intuition (subst; auto)|].
+      simpl in Hg3. destruct Hg3 as [<-|[<-|[]]]; try discriminate E3. inversion R3 as [|? ? ? S4]; subst. clear S3 R3 E3.
+      destruct (Inv _ _ _ _ _ _ S4 eq_refl) as (Hnot & _); [simpl; intuition (subst; auto)|].
+      apply Hnot. simpl. auto.
+Qed.
